@@ -52,7 +52,13 @@ def run(ctx):
                 'dictionary-based reference grouping. Non-trivial: a table with a key that repeats.')
     ctx.assumptions += ['itertools.groupby, functools.reduce, builtin sum/min/max/len/list on ints',
                         'value fields for sum/min/max are ints (float addition is outside the model)']
-    ctx.prove(['PetlProofs.Props.C09'], REQUIRED)
+    from translators import argforms as _af
+    try:
+        _info = _af.generate()
+        ctx.bridge('translator: truthiness tests on selection-like arguments in %d functions (%d sites)' % (_info['functions'], len(_info['sites'])), True)
+    except Exception as e:   # noqa
+        ctx.bridge('translator: argument-form sites extracted', False, repr(e))
+    ctx.prove(['PetlProofs.Props.C09', 'PetlProofs.Props.ArgForms'], REQUIRED + ['Petl.ArgForms.selection_arguments_not_tested_by_truthiness'])
     rng = ctx.rng
     n = 2000 if ctx.thorough() else 300
     jobs = []   # (opname, line or None, thunk, oracle_thunk, case)
